@@ -5,6 +5,7 @@ the facts of the path); loops are never unrolled: each loop is summarised from
 one symbolic iteration (classes: element map, counter, last-value, recurrence)
 or the analysis stops with Undecided.
 """
+import re
 import itertools
 
 from .lin import Lin, Facts, lin, ZERO, ONE, neg_cond
@@ -205,6 +206,34 @@ class Ctx:
         self.alias_len = {}      # (assoc name) -> Lin
         self.trait_impl = {}     # trait path -> (crate, impl)
         self.extra = {}
+
+
+def _widened_from(at, w):
+    """atom `cast_u<a>_to_u<w>(t)` with a < w (a zero-extension): returns a, else None."""
+    if at[0] != "ifn" or len(at[2]) != 1:
+        return None
+    mm = re.match(r"^cast_u(\d+)_to_u(\d+)$", at[1])
+    if not mm or int(mm.group(2)) != w or int(mm.group(1)) >= w:
+        return None
+    inner = at[2][0]
+    if not (isinstance(inner, tuple) and inner and inner[0] == "int" and inner[1] == int(mm.group(1))):
+        return None
+    return int(mm.group(1))
+
+
+def _trunc_of_widened(t, w):
+    """truncation to u<w> of an integer term over u<W>, W > w, all of whose atoms are zero-extensions
+    of u<w> values: truncation is a ring homomorphism Z/2^W -> Z/2^w and undoes the extension, so
+    `(x as u128 + 1) as u64` is `x + 1` in u64 (wrapping).  None if some atom is of another kind."""
+    W = t[1]
+    if W <= w:
+        return None
+    acc = T.iconst(w, t[2])
+    for at, k in t[3]:
+        if _widened_from(at, W) != w:
+            return None
+        acc = T.iadd(acc, T.imulc(at[2][0], k % (1 << w)))
+    return acc
 
 
 class Interp:
@@ -734,6 +763,9 @@ class Interp:
                         return v
                     if not v[1][3]:
                         return vint(T.iconst(w, v[1][2]))
+                    tr = _trunc_of_widened(v[1], w)
+                    if tr is not None:
+                        return vint(tr)
                     return vint(T.ifn(w, "cast_u%d_to_u%d" % (v[1][1], w), v[1]))
             if v[0] == "symdisc":
                 return v
@@ -819,8 +851,12 @@ class Interp:
                 def small(t):
                     if w <= 64 or t[2] >= (1 << 64):
                         return False
-                    return all(at[0] == "sz" and not at[1].c and all(isinstance(k_, int) and 0 < k_ for _, k_ in at[1].t) and 0 < k < (1 << 16)
-                               and sum(k_ for _, k_ in at[1].t) < (1 << 16) for at, k in t[3])
+                    def small_atom(at):
+                        if at[0] == "ifn" and _widened_from(at, w) is not None and _widened_from(at, w) <= 64:
+                            return True       # zero-extension of a value of at most 64 bits
+                        return at[0] == "sz" and not at[1].c and all(isinstance(k_, int) and 0 < k_ for _, k_ in at[1].t) \
+                            and sum(k_ for _, k_ in at[1].t) < (1 << 16)
+                    return all(small_atom(at) and 0 < k < (1 << 16) for at, k in t[3])
                 if small(x) and small(y) and self._sz_nonneg(st, x) and self._sz_nonneg(st, y):
                     return ("tuple", [vint(T.iadd(x, y)), vbool(False)])
                 return ("tuple", [vint(T.iadd(x, y)), ("bool", ("opaque", "int-overflow", T.ishow(x), T.ishow(y)))])
